@@ -9,7 +9,7 @@
    KernelConfig and address list.  The hosts of every world the harness
    scripts can reach are such kernels (c16_world_hosts_reachable). *)
 From TV.Lib Require Import Base.
-From TV.NetTcp Require Import Gen Model Facts C16_proofs Wrap WrapTcb.
+From TV.NetTcp Require Import Gen Model Facts C16_proofs Wrap WrapTcb WrapConn.
 Open Scope N_scope.
 
 (* Queued (unsent + unacknowledged) bytes never exceed send_buf_cap. *)
@@ -130,6 +130,26 @@ Proof. exact seg_step_wrap_lemma. Qed.
 Theorem transmittable_wrap : forall t, near_snd t -> transmittable_w (wrt t) = transmittable t.
 Proof. exact transmittable_wrap_lemma. Qed.
 
+(* The whole inbound per-connection handler (tcp.rs `handle_on_connection`
+   without the RST arm, tcp.rs:215-280 + handle_established): SYN-ACK receipt
+   in SynSent (rcv_nxt = s.seq.wrapping_add(1)), the handshake ACK test of
+   SynReceived (s.ack != snd_nxt on u32 values) and the data states. *)
+Theorem tcb_on_conn_wrap : forall cap t s, near t s ->
+  tcb_on_conn_w cap (wrt t) (wrs s) = (wrt (fst (tcb_on_conn cap t s)), snd (tcb_on_conn cap t s)).
+Proof. exact tcb_on_conn_wrap_lemma. Qed.
+
+(* The TCB literals of poll_connect / accept_syn and the sequence number of a
+   retransmitted SYN / SYN-ACK. *)
+Theorem fresh_tcb_wrap : forall st peer isn wnd sq,
+  (fresh_tcb_w st peer (wr isn) wnd (wadd (wr sq) 1) = wrt (fresh_tcb st peer isn wnd (sq + 1)) /\
+   fresh_tcb_w st peer (wr isn) wnd 0 = wrt (fresh_tcb st peer isn wnd 0)) /\
+  (forall rcv, let t := fresh_tcb st peer isn wnd rcv in
+     wsub (snd_una (wrt t)) 1 = wr (snd_una t - 1) /\ snd_una t - 1 = isn).
+Proof.
+  intros st peer isn wnd sq. split; [apply fresh_tcb_wrap_lemma|].
+  intros rcv. apply syn_retx_seq_wrap_lemma.
+Qed.
+
 Theorem wrap_tight :
   let una := W + 100 in let nxt := W + 110 in let ack := 105 in
   ((0 <? wsub (wr ack) (wr una)) && (wsub (wr ack) (wr una) <=? wsub (wr nxt) (wr una))) = true /\
@@ -166,5 +186,7 @@ Print Assumptions c16_nonvacuous.
 Print Assumptions tcb_on_seg_wrap.
 Print Assumptions seg_step_wrap.
 Print Assumptions transmittable_wrap.
+Print Assumptions tcb_on_conn_wrap.
+Print Assumptions fresh_tcb_wrap.
 Print Assumptions wrap_tight.
 Print Assumptions c16_wrap_nonvacuous.
